@@ -439,7 +439,9 @@ func Extract(_ *log.Logger, bucketURL string, key string, minzoom int8, maxzoom 
 
 	// TODO: takes up too much RAM
 	// construct the directories
-	newRootBytes, newLeavesBytes, _ := optimizeDirectories(reencoded, 16384-HeaderV3LenBytes, Gzip)
+	// the metadata section is copied verbatim from the source, so the new directories
+	// must use the internal compression that the header keeps declaring
+	newRootBytes, newLeavesBytes, _ := optimizeDirectories(reencoded, 16384-HeaderV3LenBytes, header.InternalCompression)
 
 	// 7. write the modified header
 	header.RootOffset = HeaderV3LenBytes
